@@ -472,12 +472,96 @@ def r127(ctx, fx):
                     "following `*` or `/*…*/` into a comment opener and the formatted program no longer means the same", "%s:%s" % (f.file, arm.get("ln")))
 
 
+def r128(ctx, fx):
+    rid = ctx.rule("R12.8", "trivia is written out as it was recorded: nowhere in the formatter is a list of trivia items copied selectively by kind (filter / retain / "
+                   "filter_map / skip_while / take_while / partition with a closure that tells `Trivia::` variants apart) — a `//` comment ends at the line break "
+                   "recorded after it, and a copy without the line breaks puts whatever is written next inside the comment")
+    SEL = ("filter", "retain", "filter_map", "skip_while", "take_while", "partition", "drain_filter", "retain_mut")
+    n = 0
+    seen = {}
+    for f in sorted(fx.all_fns("mos_core"), key=lambda f: f.path):
+        if "::tests::" in f.path or not f.path.lstrip("<").startswith("mos_core::formatting") or not f.d.get("hir") or f.kind == "closure":
+            continue
+        n += 1
+        hits = []
+        for x in lib.hwalk(f.hir["body"]):
+            if x.get("k") == "mcall" and x.get("name") in SEL:
+                for a in x.get("args", []):
+                    c = lib.strip(a)
+                    if c.get("k") != "closure":
+                        continue
+                    variants = set()
+                    for m in lib.hwalk(c):
+                        if m.get("k") == "match":
+                            for arm in m["arms"]:
+                                for v in lib.pat_variants(arm["pat"]):
+                                    if isinstance(v, str) and "::Trivia::" in v:
+                                        variants.add(v.split("(")[0].rsplit("::", 1)[-1])
+                        if m.get("k") == "letx":
+                            for v in lib.pat_variants(m["pat"]):
+                                if isinstance(v, str) and "::Trivia::" in v:
+                                    variants.add(v.split("(")[0].rsplit("::", 1)[-1])
+                    if variants:
+                        hits.append((x["name"], sorted(variants), x.get("ln")))
+        if not hits:
+            ctx.inst(rid, f.path, nontrivial=False)
+        for name, variants, ln in hits:
+            seen[f.path] = seen.get(f.path, 0) + 1
+            k = "%s|selective-trivia#%d" % (f.path, seen[f.path])
+            ctx.inst(rid, k, sample={"fn": f.path, "selector": name, "tells_apart": variants, "line": ln})
+            ctx.finding(rid, k, "%s copies a trivia list selectively (`%s` on %s): a line comment whose line break is dropped swallows what follows it, a dropped "
+                        "comment is lost" % (f.path.rsplit("::", 1)[-1], name, "/".join(variants)), "%s:%s" % (f.file, ln))
+    ctx.floor(rid, 20, "formatter bodies scanned")
+
+
+def r122b(ctx, fx):
+    rid = ctx.rule("R12.2b", "outside the three token / expression formatters too, a local of type Located<T> (the element of an argument list, a loop variable) is not "
+                   "emitted through `.data` alone: it is handed to the Located formatter whole or its `.trivia` is read — else the comments in front of it are "
+                   "deleted (Located<Vec<Trivia>>, the trivia list itself, is exempt)")
+    from .c11 import _anc_walk
+    HANDLED = ("::format_token", "::format_expression", "::format_expression_factor")
+    n = 0
+    for f in sorted(fx.all_fns("mos_core"), key=lambda f: f.path):
+        if "::tests::" in f.path or "mos_core::formatting" not in f.path or not f.d.get("hir") or f.kind == "closure" or f.path.endswith(HANDLED):
+            continue
+        n += 1
+        uses = {}
+        for x, anc in _anc_walk(f.hir["body"]):
+            if not (x.get("k") == "path" and (x.get("res") or {}).get("dk") == "Local"):
+                continue
+            ty = str(x.get("ty", ""))
+            if "parser::ast::Located<" not in ty or "Located<alloc::vec::Vec<mos_core::parser::ast::Trivia>>" in ty:
+                continue
+            i = len(anc) - 1
+            while i >= 0 and anc[i][0].get("k") in ("addrof", "unary"):
+                i -= 1
+            par = anc[i][0] if i >= 0 else {}
+            kind = "whole"
+            if par.get("k") == "field":
+                kind = "." + str(par.get("name"))
+            elif par.get("k") == "mcall" and anc[i][1] == "recv":
+                kind = "method " + str(par.get("name"))
+            uses.setdefault(x["res"]["name"], set()).add(kind)
+        if not uses:
+            ctx.inst(rid, f.path, nontrivial=False)
+        for name, kinds in sorted(uses.items()):
+            k = "%s|%s" % (f.path, name)
+            data_only = kinds <= {".data", ".span"}
+            ctx.inst(rid, k, sample={"fn": f.path, "local": name, "used_as": sorted(kinds)} if data_only or len(uses) < 4 else None)
+            if data_only:
+                ctx.finding(rid, k, "%s emits the Located value `%s` through `.data` only: the comments recorded in front of it never reach the output" % (
+                    f.path.rsplit(" as ", 1)[0][-60:] if " as " in f.path else f.path.rsplit("::", 1)[-1], name), f.where)
+    ctx.floor(rid, 15, "formatter bodies scanned")
+
+
 def run(ctx):
     fx = ctx.facts
     r125(ctx, fx)
     r126(ctx, fx)
     r127(ctx, fx)
+    r128(ctx, fx)
     r121_122(ctx, fx)
+    r122b(ctx, fx)
     r123(ctx, fx)
     r124(ctx, fx)
     ctx.not_decided("token-sequence equality and byte equality of the assembled program after formatting; order of comments; formatter options other than their "
